@@ -361,11 +361,21 @@ def check_names(k, tier, res):
 def math_environments():
     """(name, argument text) of every environment the default walker database parses in math
     mode, read from the tree at run time"""
-    from pylatexenc.latexwalker import get_default_latex_context_db
+    from pylatexenc.latexwalker import get_default_latex_context_db, LatexWalker
+    from ..treedump import walk, kind
     out = []
     for sp in get_default_latex_context_db().iter_environment_specs():
-        if getattr(sp, 'is_math_mode', False):
-            out.append((sp.environmentname, '{2}' * len(sp.arguments_spec_list or [])))
+        name = sp.environmentname
+        args = '{2}' * len(getattr(sp, 'arguments_spec_list', None) or [])
+        # "parses in math mode" is observed, not read from an attribute of the specification
+        try:
+            src = '\\begin{%s}%s x\\end{%s}' % (name, args, name)
+            nl = LatexWalker(src, tolerant_parsing=False).get_latex_nodes()[0]
+            body = [n for n in walk(nl[0].nodelist) if kind(n) == 'chars']
+            if body and all(n.parsing_state.in_math_mode for n in body):
+                out.append((name, args))
+        except Exception:
+            pass
     return sorted(out)
 
 
@@ -388,8 +398,13 @@ def check_formula(src, formula_src, opts, res, case, top=True):
     except BaseException as e:
         res.fail(exc_key(e), exc_detail(e) + ' on %r' % doc, case)
         return
-    flat = ''.join(out.split())
+    import re
+    import unicodedata
+    # (compatibility-normalised: a renderer may typeset math letters in a mathematical alphabet)
+    flat = ''.join(unicodedata.normalize('NFKC', out).split())
     mm, kc = opts['math_mode'], opts['keep_comments']
+    # ('verbatim' keeps the source unchanged; whether a comment inside it counts as source or
+    # falls under "comments never appear" is not decided here: both are accepted below)
     if 'TXAQ' not in flat or 'TXBQ' not in flat:
         res.fail('c12:visible-text-missing:around-formula', '%r -> %r' % (doc, out), case)
     if mm == 'remove' and 'MTHQ' in flat:
@@ -397,10 +412,12 @@ def check_formula(src, formula_src, opts, res, case, top=True):
                  'appears: %r -> %r' % (doc, out), case)
     if mm in ('text', 'with-delimiters') and 'MTHQ' not in flat:
         res.fail('c12:math-content-missing:%s' % case['what'], '%r -> %r' % (doc, out), case)
-    if mm == 'verbatim' and top and ''.join(formula_src.split()) not in flat:
+    if mm == 'verbatim' and top and ''.join(formula_src.split()) not in flat \
+            and not (not kc and ''.join(re.sub(r'%[^\n]*\n?', '', formula_src).split()) in flat):
         res.fail('c12:verbatim-math-changed:%s' % case['what'], 'source %r of the formula is not in '
                  'the output %r' % (formula_src, out), case)
-    if mm == 'verbatim' and top and opts.get('fill_text') is None and formula_src not in out:
+    if mm == 'verbatim' and top and opts.get('fill_text') is None and formula_src not in out \
+            and not (not kc and re.sub(r'%[^\n]*\n?', '', formula_src) in out):
         res.fail('c12:verbatim-math-changed:%s' % case['what'], 'source %r of the '
                  'formula is not in the output unchanged: %r' % (formula_src, out), case)
     if mm == 'with-delimiters' and top:
@@ -470,14 +487,16 @@ def declared_db(route):
     tdb = L.get_default_latex_context_db()
     if route == 'spec-objects':
         tdb.add_context_category('pv-decl', prepend=True, macros=[
-            L.MacroTextSpec('dmac', discard=True), L.MacroTextSpec('dbare')],
+            L.MacroTextSpec('dmac', discard=True), L.MacroTextSpec('dbare', discard=True)],
             environments=[L.EnvironmentTextSpec('denv', discard=True)],
-            specials=[L.SpecialsTextSpec('@@', ''), L.SpecialsTextSpec('@!')])
+            specials=[L.SpecialsTextSpec('@@', '', discard=True),
+                      L.SpecialsTextSpec('@!', discard=True)])
     elif route == 'legacy-defs':
         tdb.add_context_category('pv-decl', prepend=True, macros=[
             L.MacroDef('dmac', discard=True), L.MacroDef('dbare', discard=True)],
             environments=[L.EnvDef('denv', discard=True)],
-            specials=[L.SpecialsTextSpec('@@', ''), L.SpecialsTextSpec('@!', '')])
+            specials=[L.SpecialsTextSpec('@@', '', discard=True),
+                      L.SpecialsTextSpec('@!', '', discard=True)])
     return wdb, tdb
 
 
